@@ -24,7 +24,7 @@ EnvOf(e) ==
     LET P == cfg.proxies[e.pi] IN
     [ keep |-> (IF "keep_cfg" \in DOMAIN cfg THEN EffKeep(cfg.keep_cfg) ELSE cfg.keep), names |-> cfg.names, static |-> cfg.static, resolv |-> ResolvOf(e), rx |-> e.rx, tohost |-> e.tohost,
       L |-> cfg.all[e.lid], trans |-> [i \in DOMAIN P.trans |-> cfg.all[P.trans[i]]], all |-> cfg.all,
-      mustrr |-> P.mustrr, recv |-> P.recv, src |-> e.src, learned |-> learned, pool |-> Range(e.pool) ]
+      mustrr |-> P.mustrr, recv |-> (IF "recv_cfg" \in DOMAIN P THEN EffRecvKey(P.recv_cfg) ELSE P.recv), src |-> e.src, learned |-> learned, pool |-> Range(e.pool) ]
 
 Verdicts(e) ==
     LET env == EnvOf(e)  m == e.inmsg  outs == e.outs IN
